@@ -63,8 +63,18 @@ def judge_noise(st):
     ktol = 8 * math.sqrt(24.0 / n) + 0.05 + (4.0 * fk * fk / v_model if fk else 0)
     if abs(kurt - k_model) > ktol and s >= 2:
         out.append("not-gaussian-shaped")
-    if st["max"] > 7.5 * math.sqrt(v_hi) + 4 and n < 1e9:
-        out.append("outlier")        # P(|Z| > 7.5) = 6e-14 per sample
+    if st["max"] > (7.5 if n < 1e9 else 9.5) * math.sqrt(v_hi) + 4:
+        out.append("outlier")        # P(|Z| > 7.5) = 6e-14, P(|Z| > 9.5) = 2e-21 per sample
+    if "beyond_5_sigma" in st:       # tail mass of the sampler: Poisson counts around n * P(|Z| > z), 8 standard errors + 1
+        for z, f, pz in ((5, "beyond_5_sigma", 5.733e-7), (6, "beyond_6_sigma", 1.973e-9)):
+            exp = n * pz
+            info["beyond_%d_sigma(observed,expected)" % z] = [st[f], round(exp, 2)]
+            # the library generator (minstd_rand0) has one cycle of 2^31-2 states and a draw takes ~2.55 of them: beyond ~8e8
+            # draws the shards re-visit each other's states, so the counts are inflated by repeats
+            rep = max(1.0, n * 2.55 / 2147483646.0)
+            info["generator_cycle_coverage"] = round(n * 2.55 / 2147483646.0, 2)
+            if abs(st[f] - exp) > 8 * math.sqrt(exp * rep) + 3 + 0.02 * exp:
+                out.append("tail-mass-%d-sigma" % z)
     return out, info
 
 
@@ -87,6 +97,10 @@ def run(tier, seed, t0):
     jobs.append(Job("keys-custom-debug", "drv_c07", "debug", "spqlios-fma", ["--mode", "keys", "--lambda", 0, "--seed", seed + 1, "--threads", 8], timeout=3600, weight=8))
     for i, al in enumerate([2.0 ** -15, 2.44e-5] + ([2.0 ** -20, 2.0 ** -25] if thorough else [])):
         jobs.append(Job("ksrows-%d" % i, "drv_c07", "optim", "spqlios-fma", ["--mode", "ksrows", "--n_in", 65536 if thorough else 16384, "--n_out", 8, "--alpha", al, "--seed", seed, "--shard", i], timeout=3600))
+    # the sampler far into its tails (events of probability ~1e-9 per draw spoil one generated key in a few hundred)
+    for i in range(64 if thorough else 16):
+        jobs.append(Job("tail-%d" % i, "drv_c07", "optim", "spqlios-fma", ["--mode", "tail", "--alpha", 2.0 ** -25 if i % 2 == 0 else 2.0 ** -15,
+                                                                       "--count", 6e8 if thorough else 1.5e8, "--seed", seed, "--shard", i], timeout=7200))
     jobs.append(Job("seeding", "drv_c07", "optim", "spqlios-fma", ["--mode", "seeding", "--seed", seed], timeout=1800))
     jobs.append(Job("seeding-fftw", "drv_c07", "optim", "fftw", ["--mode", "seeding", "--seed", seed + 1], timeout=1800))
 
@@ -104,8 +118,9 @@ def run(tier, seed, t0):
                     if a is None:
                         pooled[key] = dict(st, _r=r)
                     else:
-                        for f in ("n", "s1", "s2", "s3", "s4"):
-                            a[f] += st[f]
+                        for f in ("n", "s1", "s2", "s3", "s4", "beyond_5_sigma", "beyond_6_sigma"):
+                            if f in st:
+                                a[f] += st[f]
                         a["max"] = max(a["max"], st["max"])
                 elif st.get("kind") == "mask":
                     n = st["n"]
